@@ -197,7 +197,7 @@ def main():
         finally:
             sh(f'git -C /repo worktree remove --force {wt}')
     # restore the generated model to /repo
-    for g in ('gen.py', 'gen_deps.py', 'gen_files.py', 'gen_units.py'):
+    for g in ('gen.py', 'gen_deps.py', 'gen_files.py', 'gen_units.py', 'gen_pumps.py'):
         sh(f'/venv/bin/python {a.verif}/tools/translate/{g} /repo {a.verif}/coq/Gen')
     if a.out:
         with open(a.out, 'w') as f:
